@@ -179,6 +179,9 @@ macro_rules! spec_runner {
             let flat = doc.flatten();
             let text = render(&flat, &LayoutCfg::c05(rng), rng).text;
             rec.nontrivial(text.as_bytes());
+            if rec.want_sample() && case % 401 == 3 {
+                rec.sample(Json::obj().with("spec", Json::s($label)).with("document", Json::s(&clip(&text, 500))));
+            }
             rec.bump(&format!("spec.{}", $label));
             rec.bump(if in_file { "definition.in_file(X_TEXT in A2ML block)" } else { "definition.built_in(X_TEXT argument)" });
             let spec_arg = if in_file { None } else { Some(text_const.to_string()) };
